@@ -54,7 +54,11 @@ pub struct Local {
     pub cur_sub: String,
     pub cur_idx: u64,
     pub sample_cap: usize,
+    pub nt_dropped: u64,
 }
+
+pub const NT_CAP_PER_THREAD: usize = 1_500_000;
+pub const NT_CAP_TOTAL: usize = 24_000_000;
 
 impl Local {
     pub fn eval(&mut self) {
@@ -64,7 +68,12 @@ impl Local {
         self.evals += n;
     }
     pub fn nt(&mut self, digest: u64) {
-        self.nontrivial.insert(digest);
+        // bounded memory: beyond the cap the count is conservative (an undercount), which the evidence states
+        if self.nontrivial.len() < NT_CAP_PER_THREAD {
+            self.nontrivial.insert(digest);
+        } else {
+            self.nt_dropped += 1;
+        }
     }
     pub fn count(&mut self, key: &str) {
         *self.counters.entry(key.to_string()).or_insert(0) += 1;
@@ -113,7 +122,14 @@ impl Local {
     }
     fn merge(&mut self, o: Local) {
         self.evals += o.evals;
-        self.nontrivial.extend(o.nontrivial);
+        self.nt_dropped += o.nt_dropped;
+        for d in o.nontrivial {
+            if self.nontrivial.len() < NT_CAP_TOTAL {
+                self.nontrivial.insert(d);
+            } else {
+                self.nt_dropped += 1;
+            }
+        }
         for s in o.samples {
             if self.samples.len() < 12 {
                 self.samples.push(s);
@@ -631,6 +647,12 @@ impl Run {
             .set("samples", J::A(self.merged.samples.clone()));
         if let Some(e) = self.exhaustive {
             cov.put("exhaustive", e);
+        }
+        if self.merged.nt_dropped > 0 {
+            cov.put(
+                "distinct_nontrivial_note",
+                format!("digest sets are capped ({} per worker thread and sub-check, {} in total) to bound memory; {} further non-trivial cases were not inserted, so distinct_nontrivial is a lower bound", NT_CAP_PER_THREAD, NT_CAP_TOTAL, self.merged.nt_dropped),
+            );
         }
         cov.put("sub_checks", J::A(self.sub_stats.clone()));
         let mut counters = J::obj();
